@@ -54,7 +54,35 @@ def _delayed_multiplicity():
     return {"reproduced": bool(bad), "observed": bad[:3], "expected": "delayed products minus delayed reactants, with multiplicity, per firing"}
 
 
+def _signed_delay():
+    """a Gaussian delay whose draws are all negative (and a negative fixed delay) acts as zero delay: every firing delivers at once"""
+    import warnings
+    warnings.simplefilter("ignore")
+    import numpy as np
+    from bioscrape.types import Model
+    from bioscrape.simulator import py_simulate_model
+    from bioscrape.random import py_seed_random
+    bad = []
+    for fam, dp in (("gaussian", {"mean": -50.0, "std": 1.0}), ("fixed", {"delay": -2.0}), ("gaussian", {"mean": 0.0, "std": 1.0})):
+        for vol in (None, 1.5):
+            M = Model(species=["A", "B"], reactions=[(["A"], [], "massaction", {"k": 1.0}, fam, [], ["B"], dp)], initial_condition_dict={"A": 60})
+            py_seed_random(2)
+            df = py_simulate_model(np.linspace(0, 2, 41), Model=M, stochastic=True, delay=True, **({} if vol is None else {"volume": vol}))
+            A, B = df["A"].to_numpy(), df["B"].to_numpy()
+            if fam == "gaussian" and dp["mean"] == 0.0:
+                # half the draws are negative: about half of the firings are delivered at once, so B may not lag far behind
+                late = (60 - A) - B
+                if late[-1] > 0.9 * (60 - A[-1]) and (60 - A[-1]) >= 20:
+                    bad.append("gaussian(0, 1) delay%s: %d firings, %d delivered by t=2 (about half of the draws are negative and deliver at once)" % ("" if vol is None else " with volume", 60 - A[-1], B[-1]))
+            elif not np.array_equal(B, 60 - A):
+                i_ = int(np.argmax(B != 60 - A))
+                bad.append("%s delay %s%s: %d firings by t=%.2f but %d delivered; a non-positive delay delivers at the firing time" % (fam, dp, "" if vol is None else " with volume", 60 - A[i_], 0.05 * i_, B[i_]))
+    return {"reproduced": bool(bad), "observed": bad[:3], "expected": "non-positive delays act as zero delay"}
+
+
 def replay(spec):
+    if spec.get("kind") == "signed_delay":
+        return _signed_delay()
     if spec.get("kind") == "stoich":
         r = _delayed_multiplicity()
         if r["reproduced"]:
